@@ -396,6 +396,7 @@ fn wd_plans(thorough: bool) -> Vec<Plan> {
     seeds.push(("thirty_three_batches", small_funds(|| seed_n_batches(&k, 33, true, false), 0)));
     seeds.push(("many_requesters", small_funds(|| seed_many_requesters(&k, 120), 0)));
     seeds.push(("huge_store", small_funds(|| seed_n_batches(&k, 150, true, true), 0)));
+    seeds.push(("crowd", small_funds(|| seed_crowd(&k, 1_100), 0)));
     seeds.push(("mid_received", small_funds(|| seed_mid_received(&k), 0)));
     if thorough {
         seeds.push(("two_batches", small_funds(|| two_batches(&k), 0)));
@@ -476,6 +477,9 @@ fn life_plans(thorough: bool) -> Vec<Plan> {
             ("ten_batches", small_funds(|| seed_ten_batches(&k), 0)),
             ("eight_submitted", small_funds(|| seed_n_batches(&k, 8, false, false), 0)),
             ("far_future", small_funds(|| seed_far_future(&k), 0)),
+            // crowded batches: a submission whose cost or arithmetic depends on the number of requesters
+            ("many_requesters", small_funds(|| seed_many_requesters(&k, 120), 0)),
+            ("crowd", small_funds(|| seed_crowd(&k, 1_100), 0)),
         ],
     );
     let mut o = MenuOpt::base();
@@ -882,7 +886,7 @@ pub fn panic_plans(thorough: bool) -> Vec<Plan> {
 /// seeds with long scripted prefixes (many batches) are explored in a plan of their own, at a
 /// smaller depth: their states are large and their menus wide
 fn is_deep(seed: &str) -> bool {
-    ["ten_batches", "thirty_three_batches", "eight_submitted", "many_requesters", "huge_store", "refundable140"].iter().any(|d| seed.ends_with(d))
+    ["ten_batches", "thirty_three_batches", "eight_submitted", "many_requesters", "huge_store", "refundable140", "crowd"].iter().any(|d| seed.ends_with(d))
 }
 
 pub fn plans(prop: &str, thorough: bool) -> Vec<Plan> {
@@ -938,9 +942,49 @@ pub fn run(prop: &str, thorough: bool) -> i32 {
         crate::store_pin::counterless_batches(&mut r, "C05");
     }
     if prop == "C06" {
+        submit_cost_grid(&mut r);
         // the lifecycle also has to work on the stores that deployed contracts already hold
         r.assumptions.push("deployed bytes: /verif/baselines/staking-stores.json holds the stores the pinned tree writes for eight scripted histories; the tree under test must read and operate them like stores it wrote itself".into());
         crate::store_pin::run_pin(&mut r, "C06");
     }
     r.finish()
+}
+
+/// SubmitBatch is permissionless and the number of requesters of a batch is controlled by anybody (one
+/// token per new address): on a chain with a block gas limit "succeeds exactly when the batch is non-empty and
+/// due" can only hold if the work of a submission does not grow with the number of requesters. The simulator
+/// has no gas meter; it counts the storage records a transaction reads. The count for pending batches of 3,
+/// 120 and 370 requesters must be the same up to a small constant.
+fn submit_cost_grid(r: &mut Runner) {
+    use mwsim::explore::viol;
+    use serde_json::json;
+    let k = K::k0();
+    let mut rows: Vec<(String, usize, u64, bool)> = vec![];
+    let cands: Vec<(&str, Option<Sim>)> = vec![
+        ("queued", try_seed(|| seed_queued(&k))),
+        ("four_requesters", try_seed(|| seed_four_requesters(&k))),
+        ("many_requesters", try_seed(|| seed_many_requesters(&k, 120))),
+        ("crowd", try_seed(|| seed_crowd(&k, 1_100))),
+    ];
+    for (name, s) in cands {
+        let Some(mut s) = s else { continue };
+        let requesters = s.m.batches[&s.m.pending].requests.len();
+        let due = pending_due(&s).max(s.w.time + 1);
+        s.apply(&advance(due));
+        let ap = s.apply(&submit(&p20("x")));
+        rows.push((name.to_string(), requesters, ap.out.reads, ap.out.ok));
+    }
+    let mut viols = vec![];
+    let ok_rows: Vec<&(String, usize, u64, bool)> = rows.iter().filter(|x| x.3).collect();
+    if let (Some(small), Some(big)) = (ok_rows.iter().min_by_key(|x| x.1), ok_rows.iter().max_by_key(|x| x.1)) {
+        if big.1 > small.1 + 50 && big.2 > small.2 + 16 {
+            viols.push((
+                viol("C06", "submit.cost_grows_with_requesters", format!("SubmitBatch read {} storage records for a batch of {} requesters and {} for a batch of {}: its cost grows with the number of requesters, so a crowded due batch cannot be submitted within a block gas limit", big.2, big.1, small.2, small.1)),
+                json!({"rows": rows.iter().map(|x| json!({"seed": x.0, "requesters": x.1, "storage_reads": x.2, "ok": x.3})).collect::<Vec<_>>()}),
+            ));
+        }
+    }
+    r.notes.push(format!("storage records read by SubmitBatch (seed, requesters, reads, ok): {:?}", rows));
+    let n = rows.len() as u64;
+    r.grid("c06-submit-cost: storage reads of SubmitBatch against the number of requesters of the batch", n, 2, ok_rows.len() as u64, n - ok_rows.len() as u64, vec![json!({"seed": "crowd", "requesters": 370})], viols);
 }
